@@ -28,6 +28,25 @@ import (
 	"pgregory.net/rapid"
 )
 
+// c09GuardedElem protects its counter with its own mutex; its marshaler has a pointer receiver.
+type c09GuardedElem struct {
+	mu sync.Mutex
+	n  int
+}
+
+func (e *c09GuardedElem) MarshalLogObject(enc zapcore.ObjectEncoder) error {
+	e.mu.Lock()
+	defer e.mu.Unlock()
+	enc.AddInt("n", e.n)
+	return nil
+}
+
+// c09RealTickerClock is a custom Clock built on the time package (time.NewTicker panics on a non-positive interval).
+type c09RealTickerClock struct{}
+
+func (c09RealTickerClock) Now() time.Time                         { return time.Now() }
+func (c09RealTickerClock) NewTicker(d time.Duration) *time.Ticker { return time.NewTicker(d) }
+
 var c09Ops = []string{
 	"Logger.Info", "Logger.Debug", "Logger.Error", "Logger.Log", "Logger.DPanic", "Logger.Panic", "Logger.Fatal", "Logger.Check+Write",
 	"Sugar.Infow", "Sugar.Infof", "Sugar.Infoln", "Sugar.Info", "Sugar.Logw", "Sugar.With", "Sugar.WithLazy", "Sugar.Errorw(dangling)",
@@ -41,7 +60,7 @@ var c09Ops = []string{
 	"LazyChild.Info", "LazyChild.With", "yield",
 	"BWSoverLock.Write", "BWSoverLock.Sync", "BWSoverUnsafe.Write(small)", "BWSoverUnsafe.Write(oversized)", "BWSoverUnsafe.Write(oversized)", "BWSoverUnsafe.Sync", "ErrnoLocked.Write+Sync", "ErrnoLocked.Write+Sync", "ErrnoLogger.Error+Sync",
 	"ReflectCtx.Info(reflect)", "ReflectCtx.Info(reflect)", "ReflectCtx.With(reflect)", "Logger.Info(unencodable)", "Logger.Error(errors)", "Logger.Info(nested)",
-	"ScrubObs.Info", "ScrubObs.Info", "ScrubObs.InfoFields", "ScrubObs.With", "ScrubObs.TakeAndScrub", "ScrubObs.TakeAndScrub", "Observer.Filter(panicking predicate)",
+	"BWSClockOnly.Write", "BWSClockOnly.Sync", "Logger.Info(ObjectValues of guarded elements)", "Logger.Info(ObjectValues of guarded elements)", "GuardedElems.Update", "ScrubObs.Info", "ScrubObs.Info", "ScrubObs.InfoFields", "ScrubObs.With", "ScrubObs.TakeAndScrub", "ScrubObs.TakeAndScrub", "Observer.Filter(panicking predicate)",
 	"Logger.Info(unencodable-last)", "Logger.Info(unencodable-last)", "DeepStack.Error", "DeepStack.Error", "Logger.Info(big)", "StdLog.Print", "StdLog.Print", "StdLog.Print", "grpc.Info", "grpc.V", "zapio.Write", "Logger.Check(disabled)", "Logger.Info(stringers)",
 }
 
@@ -123,6 +142,11 @@ func c09Run(t interface{ Fatalf(string, ...any) }, p *c09Program) (sharedWriters
 	// a buffered syncer over a destination that is NOT safe for concurrent use: BufferedWriteSyncer is documented
 	// to be safe for concurrent use by itself, whatever the size of the writes
 	bwsUnsafe := &zapcore.BufferedWriteSyncer{WS: &unsafeBuf{}, Size: 16, FlushInterval: time.Millisecond}
+	// a syncer whose Clock is set while its FlushInterval is left to the default (a clock that hands out real
+	// tickers, which refuse a non-positive interval)
+	guarded := make([]c09GuardedElem, 3)
+	bwsClockOnly := &zapcore.BufferedWriteSyncer{WS: &c09LockedBuf{}, Size: 64, Clock: c09RealTickerClock{}}
+	defer bwsClockOnly.Stop()
 	defer bwsUnsafe.Stop()
 	// a locked syncer whose destination cannot be synced (what fsync reports for terminals and pipes)
 	errnoLocked := zapcore.Lock(&c09ErrnoBuf{})
@@ -290,6 +314,20 @@ func c09Run(t interface{ Fatalf(string, ...any) }, p *c09Program) (sharedWriters
 						r := slog.NewRecord(time.Unix(1, 0), slog.LevelInfo, "i", 0)
 						r.AddAttrs(slog.Int("k", g), slog.Any("v", c18Valuer{slog.StringValue("resolved")}))
 						_ = pending.Handle(context.Background(), r)
+					case "Logger.Info(ObjectValues of guarded elements)":
+						// elements that guard their state with a mutex of their own: the marshaler (pointer receiver) locks
+						// the element it is handed - which must be the caller's element, not an unguarded copy of it
+						shared.Info("guarded", zap.ObjectValues("items", guarded))
+					case "GuardedElems.Update":
+						for i := range guarded {
+							guarded[i].mu.Lock()
+							guarded[i].n++
+							guarded[i].mu.Unlock()
+						}
+					case "BWSClockOnly.Write":
+						_, _ = bwsClockOnly.Write([]byte("clock-only\n"))
+					case "BWSClockOnly.Sync":
+						_ = bwsClockOnly.Sync()
 					case "ScrubObs.Info":
 						scrubLg.Info("no call-site fields")
 					case "ScrubObs.InfoFields":
